@@ -167,8 +167,38 @@ func runCase(line string, obs *vh.LineWriter, st *vh.Stats) {
 				if res.updateCalls != 0 {
 					viol("op %d: %s entry reached the user state machine", k, kind)
 				}
+				if kind == "register" && present != nil {
+					// a duplicate of the registration request must not start a new session
+					if !(res.applyCalled && res.rejected) {
+						viol("duplicate register: client %d already registered but op %d gave %s", o.client, k, res.String())
+					}
+					if a := findViewPtr(after, o.client); a == nil || showSessions(0, []sessionView{*a}) != showSessions(0, []sessionView{*present}) {
+						viol("duplicate register: op %d changed the session of client %d", k, o.client)
+					}
+				}
+				if kind == "register" && present == nil {
+					epoch[o.client]++ // a new incarnation of this client id
+				}
 				if kind == "register" && res.applyCalled && !res.rejected {
-					epoch[o.client]++
+					// a registration is effective, and evicts only when the table is full,
+					// and then exactly one (the least recently used) session
+					if len(after) == 0 || after[0].ClientID != o.client {
+						viol("register: client %d reported registered at op %d but is not in the session table", o.client, k)
+					}
+					lost := 0
+					for _, b := range before {
+						found := false
+						for _, a := range after {
+							found = found || a.ClientID == b.ClientID
+						}
+						if !found {
+							lost++
+						}
+					}
+					if (uint64(len(before)) < capBefore && lost > 0) || lost > 1 ||
+						(lost == 1 && findView(after, before[len(before)-1].ClientID)) {
+						viol("eviction: registering client %d at op %d with %d/%d sessions dropped %d session(s) (only the least recently used one of a full table may go)", o.client, k, len(before), capBefore, lost)
+					}
 				}
 			case "update":
 				t := tag{o.client, epoch[o.client], o.series}
@@ -273,6 +303,24 @@ func runCase(line string, obs *vh.LineWriter, st *vh.Stats) {
 		body = line[i:]
 	}
 	st.Case(body, nontrivial, line)
+}
+
+func findView(l []sessionView, c uint64) bool {
+	for _, x := range l {
+		if x.ClientID == c {
+			return true
+		}
+	}
+	return false
+}
+
+func findViewPtr(l []sessionView, c uint64) *sessionView {
+	for i := range l {
+		if l[i].ClientID == c {
+			return &l[i]
+		}
+	}
+	return nil
 }
 
 func boolInt(b bool) int {
